@@ -45,3 +45,16 @@ func checkC04() *rtCheck {
 		MkCases: cases.Validation, Judge: oracle.C04, Floor: [2]int{300, 8000},
 	}
 }
+
+var errorProfiles = []string{"errors", "errors", "errors", "mixed", "http-loc"}
+
+func checkC05() *rtCheck {
+	return &rtCheck{
+		Prop: "C05",
+		Rule: "specs from the errors profile (method/service/API-level errors, default and custom types, errors sharing a status); per method the stub returns every declared error (default type: 8 flag combinations, wrapped with %w and errors.Join; custom types: minimal/full/random values), undeclared service errors (8 flag combinations x special names), plain Go errors; decode failures are hand-encoded (truncated JSON, wrong JSON kind, empty body, non-numeric parameter, unsupported media type). non-trivial = decided exchange; distinct = (feature signature, method, class, outcome)",
+		Assume: []string{"the generated server is built with a nil error formatter (what `goa example` output passes)",
+			"the goa-error header is required only when another error of the endpoint shares the status"},
+		Profiles: errorProfiles, Specs: [2]int{24, 300}, PerMethod: [2]int{0, 0},
+		MkCases: cases.Errors, Judge: oracle.C05, Floor: [2]int{300, 5000},
+	}
+}
